@@ -1,17 +1,27 @@
 """C02 — filesystem containment: URL normalise / decode / simplify pipeline,
-request-target parsing, host policy, alias/vhost/x-sendfile path composition."""
-import itertools
+request-target parsing, host policy, alias/vhost/userdir/x-sendfile/WebDAV path composition,
+symlink walk; in-process correspondence (h_url, h_docroot) + end-to-end canary stream."""
+import itertools, os, re, time
+from concurrent.futures import ThreadPoolExecutor
 from .. import common as C
+from .. import e2e
 
 MANIFEST = dict(
     text="Lean 4 theorems over an executable model of burl_normalize / buffer_urldecode_path / "
          "buffer_path_simplify / http_request_parse_target (canonical absolute path, no dot segments, for "
-         "every input and option set); model tied to the C by exhaustive small-scope + random differential "
-         "runs under ASan/UBSan",
-    note="trusted: Lean kernel (+propext, Quot.sound), hand-written model validated by the h_url "
-         "correspondence, byte-class table and flag values regenerated from burl.c/burl.h each run; TOCTOU "
-         "and filesystem semantics outside the model",
-    tech="Lean 4 proof over hand-written model + differential correspondence (in-process C harness)",
+         "every input and option set), the host policy (accepted strict host = one clean path segment), "
+         "doc_root + rel_path composition, mod_alias_remap, mod_simple_vhost / mod_evhost doc-root "
+         "construction, mod_userdir, X-Sendfile / X-Sendfile2 path checks, WebDAV Destination mapping and "
+         "stat_cache_path_contains_symlink (lexical containment under the configured root for all inputs); "
+         "models tied to the C by exhaustive small-scope + random + mutated-traversal differential runs under "
+         "ASan/UBSan and by an end-to-end stream against the real server (h1 + h2) with canary files outside "
+         "every root",
+    note="trusted: Lean kernel (+propext, Quot.sound, Classical.choice), hand-written models validated by the "
+         "h_url / h_docroot correspondence and the e2e stream, byte-class table and flag values regenerated "
+         "from burl.c/burl.h each run; configuration assumed well-formed (absolute canonical roots / alias "
+         "targets); TOCTOU races, case-insensitive filesystems and kernel path resolution outside the model; "
+         "mod_userdir getpwnam() variant external",
+    tech="Lean 4 proof over hand-written model + differential correspondence (in-process C harness + real server)",
     ref="6/C02")
 
 PATH_ALPHA = [b"/", b".", b"%", b"2", b"e", b"F", b"a", b"\\", b"?", b"\x01", b"\x7f",
@@ -39,6 +49,10 @@ def canonical_abs(p):
         if s == b"" and i != len(segs) - 1:
             return "path has empty segment"
     return None
+
+
+def has_dot_segment(p):
+    return any(s in (b".", b"..") for s in p.split(b"/"))
 
 
 def oracle(line, out):
@@ -135,29 +149,1199 @@ def gen(ctx):
     return path_lines, url_lines
 
 
+# ====================================================================== docroot (extension)
+HOST_ALPHA = [b"a", b"1", b"-", b".", b":", b"/", b"[", b"]", b"f", b"Z", b"_", b"\x80"]
+HOSTS = [b"www.example.org", b"www.example.org:8080", b"a.b.c.d.e:1", b"1.2.3.4", b"1.2.3.4:80", b"1.2.3",
+         b"[::1]", b"[::1]:80", b"[1:2:3:4:5:6:7:8]", b"[1:2:3:4:5:6:7:8:9]", b"[]", b"[::1", b"[fe80::1%eth0]",
+         b"..", b".", b"../..", b"a/../..", b"a..b", b".a", b"a.", b"a.:80", b"a..", b":80", b"a:", b"a:b",
+         b"-a", b"a-", b"a.-b", b"a_b", b"xn--a.b", b"a b", b"a\tb", b"%2e%2e", b"a\\b", b"localhost",
+         b"a/b", b"/", b"//x", b"a:80:90", b"A.B", b"[::ffff:1.2.3.4]:443", b"3com.com", b"1.2.3.4.", b"com."]
+
+
+def mutate_host(rng, s):
+    s = bytearray(s)
+    for _ in range(rng.randint(1, 2)):
+        k = rng.randint(0, 2)
+        pos = rng.randint(0, len(s))
+        if k == 0 and s:
+            del s[min(pos, len(s) - 1)]
+        elif k == 1:
+            s[pos:pos] = rng.choice(HOST_ALPHA)
+        else:
+            s[pos:pos] = rng.choice([b"..", b"/", b"./", b":", b".", b"[", b"]", b"%2f", b"\\", b"~"])
+    return bytes(s)
+
+
+def jn(*toks):
+    return " ".join(toks)
+
+
+def O(b):
+    return "~" if b is None else C.hx(b)
+
+
+ALIAS_TABLES = [[(b"/a", b"/v/")], [(b"/a/", b"/v/")], [(b"/a", b"/v")], [(b"/a/", b"/v")], [(b"", b"/v/")],
+                [(b"/", b"/v/")], [(b"/a.", b"/v/")], [(b"/A", b"/v/")], [(b"/a", b"/")], [(b"/a", b"/v/w/")],
+                [(b"/ab", b"/w/"), (b"/a", b"/v/")], [(b"/a/b/", b"/w/"), (b"/a/", b"/v/")],
+                [(b"/a", b"/very/long/replacement/value/that/forces/reallocation/of/the/path/buffer/")],
+                [(b"/.", b"/v/")], [(b"/a/.", b"/v/")], [(b"/b", b"/w"), (b"/a/", b"/v/x/"), (b"/", b"/r/")]]
+URI_ALPHA = [b"/", b"a", b".", b"b", b"A"]
+EV_PATTERNS = [b"/web/%3/", b"/web/%{3.1}/%{3.2}/%3/", b"/web/%{3.0}/", b"/web/%0/", b"/web/%0", b"/web/%_/htdocs/",
+               b"/web/%1/%2/%3/%4/", b"/web/%%/%_/", b"/web/%{0.1}%{0.2}/", b"/web/%{1.9}/", b"/web/%2.%1/",
+               b"%0", b"/web/%5/x/", b"/web/%{1}/%{2.1}/", b"/w%1%2/", b"/web/%{0.1}%{0.1}/"]
+EV_ALPHA = [b"/", b"%", b"0", b"1", b"2", b"_", b"{", b"}", b".", b"a"]
+EVH_ALPHA = [b"a", b"b", b".", b":", b"[", b"]", b"/"]
+UTF8_BYTES = [b"\xc3", b"\xa9", b"\xe2", b"\x82", b"\xac", b"\xf0", b"\x9f", b"\x98", b"\x80", b"\xed", b"\xa0",
+              b"\xc0", b"\xff", b"\xe0", b"\xf4", b"\x90", b"a", b"/", b"\xbf", b"\xc2", b"\xe1", b"\xef", b"\xf1", b"\x8f"]
+XDOCS = [[], [b"/x/"], [b"/x/", b"/y/z/"], [b"/X/"], [b"/"]]
+DAV_SRC = [(b"/dav/a.txt", None), (b"/dav/sub/a", None), (b"/a", None), (b"/dav/", None), (b"/dav/a.txt", b"/srv/alias/a.txt"),
+           (b"/dav/sub/a", b"/srv/other/dav/sub/a"), (b"/dav/a", b"/x"), (b"/dav/a b", None), (b"/dav/A.txt", None)]
+DAV_DEST = [b"/dav/b.txt", b"/dav/sub/b", b"/dav/../../etc/passwd", b"/dav/%2e%2e/%2e%2e/etc/passwd", b"/dav/..%2fx",
+            b"http://h:1/dav/b.txt", b"http://h:1/../x", b"https://h:1/dav/b", b"http://evil/dav/b", b"http://u:p@h:1/dav/b",
+            b"http://h:1", b"http:/h:1/x", b"dav/b", b"/dav/a.txt", b"/dav/a.txt/x", b"/dav/a.txtx", b"/dav/b?x=/../..",
+            b"/dav/%c0%ae%c0%ae/x", b"/dav/%ff", b"//dav//b", b"/", b"/.", b"/..", b"/dav/sub/", b"/other/b", b"/DAV/B",
+            b"http://h:1/%2e%2e/%2e%2e/x", b"/dav/\\..\\x", b"http://@h:1/x", b"http://h:1@evil/x", b"/dav/b%00c", b"/d", b"/dav"]
+
+
+def pyjoin(b, a):
+    """generator-side path join (only used to build inputs)"""
+    if b.endswith(b"/"):
+        return b + (a[1:] if a.startswith(b"/") else a)
+    return b + (a if a.startswith(b"/") else b"/" + a)
+
+
+def gen_docroot(ctx):
+    rng = ctx.rng
+    q = ctx.quick
+    S = {}
+    # ---- host policy
+    L = []
+    for n in range(0, (4 if q else 5) + 1):
+        for t in itertools.product(HOST_ALPHA, repeat=n):
+            h = C.hx(b"".join(t))
+            L.append("hostpol 1 " + h)
+            if n <= 3:
+                L.append("hostpol 0 " + h)
+    for h in HOSTS:
+        L.append("hostpol 1 " + C.hx(h)); L.append("hostpol 0 " + C.hx(h))
+    for _ in range(20000 if q else 200000):
+        h = mutate_host(rng, rng.choice(HOSTS))
+        L.append("hostpol %d %s" % (rng.randint(0, 1), C.hx(h.replace(b"\x00", b""))))
+    for h in (b"a\x00b", b"\x00", b"a\rb", b"a\nb"):
+        L.append("hostpol 0 " + C.hx(h))
+    S["host-policy"] = L
+    # ---- doc_root + rel_path, alias, userdir
+    L = []
+    uris = [b"/" + b"".join(t) for n in range(0, (5 if q else 6) + 1) for t in itertools.product(URI_ALPHA, repeat=n)]
+    for d in (b"", b"/", b"/srv", b"/srv/", b"/srv//", b"srv"):
+        for u in uris[:800] + [b"", b"a", b"a/b"]:
+            for lc in (0, 1):
+                L.append(jn("phys", str(lc), C.hx(d), C.hx(u)))
+    for tbl in ALIAS_TABLES:
+        kv = [C.hx(x) for pair in tbl for x in pair]
+        for bd in (b"/d", b"/d/", b"/"):
+            for u in uris:
+                if len(u) > 5 and rng.random() > (0.25 if q else 1.0):
+                    continue
+                L.append(jn("alias", str(rng.randint(0, 1)), C.hx(bd), C.hx(pyjoin(bd, u)), *kv))
+        for p in (b"", b"/", b"/x", b"x"):
+            L.append(jn("alias", "0", C.hx(b"/dd/"), C.hx(p), *kv))
+    for _ in range(15000 if q else 150000):
+        tbl = rng.choice(ALIAS_TABLES)
+        kv = [C.hx(x) for pair in tbl for x in pair]
+        k = rng.choice(tbl)[0]
+        tail = b"".join(rng.choice([b"/", b".", b"..", b"a", b"b", b"./", b"../", b"A", b"%2e"]) for _ in range(rng.randint(0, 6)))
+        u = rng.choice([k, k.upper(), k + b"/", b"/" + k]) + tail
+        bd = rng.choice([b"/d", b"/d/", b"/", b"/docroot/long"])
+        L.append(jn("alias", str(rng.randint(0, 1)), C.hx(bd), C.hx(pyjoin(bd, u) if u.startswith(b"/") else bd + u), *kv))
+    UA = [b"/", b"~", b"a", b".", b"B", b"_", b"%"]
+    for n in range(0, (5 if q else 6) + 1):
+        for t in itertools.product(UA, repeat=n):
+            u = b"/~" + b"".join(t)
+            if n >= 4 and rng.random() > 0.3:
+                continue
+            L.append(jn("userdir", str(rng.randint(0, 1)), str(rng.randint(0, 1)), C.hx(rng.choice([b"/home", b"/home/"])),
+                        C.hx(rng.choice([b"public_html", b"/pub/", b"p"])), C.hx(u)))
+    for u in (b"/", b"/a", b"/~", b"/~/", b"/~a", b"/~a/", b"/~../x", b"/~./x", b"/~a/../b", b"/~" + b"u" * 255 + b"/x",
+              b"/~" + b"u" * 256 + b"/x", b"/~a b/x", b"/~a\xc3\xa9/x", b"/~.a/x", b"/~..a/x", b"/~Bob/File"):
+        for lc in (0, 1):
+            for lh in (0, 1):
+                L.append(jn("userdir", str(lc), str(lh), C.hx(b"/home"), C.hx(b"public_html"), C.hx(u)))
+    S["physical-path(docroot/alias/userdir)"] = L
+    # ---- vhosts
+    L = []
+    auths = [b"".join(t) for n in range(0, (4 if q else 5) + 1) for t in itertools.product([b"a", b".", b"/", b":", b"-", b"1"], repeat=n)]
+    auths += HOSTS
+    for a in auths:
+        for st in (0, 1):
+            L.append(jn("svhost", str(st), str(rng.randint(0, 3)), C.hx(rng.choice([b"/vh/", b"/vh"])),
+                        O(rng.choice([None, b"def", b"d:80"])), O(rng.choice([None, b"/htdocs/", b"htdocs", b"/"])), C.hx(a)))
+            L.append(jn("svhost", str(st), "1", C.hx(b"/vh/"), O(b"def"), O(None), C.hx(a)))
+    evauths = [b"".join(t) for n in range(0, (5 if q else 6) + 1) for t in itertools.product(EVH_ALPHA, repeat=n)] + HOSTS
+    evauths += [b"s2.s1.dom.tld:81", b"a.b.c.d.e.f.g.h.i.j.k.l", b"a.b.c.d.e.f.g.h.i.j.k.l:9", b"host.example.org"]
+    for a in evauths:
+        if len(a) >= 5 and a not in HOSTS and rng.random() > (0.3 if q else 1.0):
+            continue
+        for pat in rng.sample(EV_PATTERNS, 3):
+            L.append(jn("evpath", C.hx(pat), C.hx(a)))
+        if a:
+            L.append(jn("evhost", str(rng.randint(0, 1)), str(rng.randint(0, 3)), C.hx(rng.choice(EV_PATTERNS)), C.hx(a)))
+    for pat in EV_PATTERNS:
+        for a in HOSTS + [b"s2.s1.dom.tld:81", b"a.b.c.d.e.f.g.h.i.j.k.l:9"]:
+            L.append(jn("evpath", C.hx(pat), C.hx(a)))
+            for st in (0, 1):
+                L.append(jn("evhost", str(st), "1", C.hx(pat), C.hx(a)))
+    for n in range(1, (4 if q else 5) + 1):
+        for t in itertools.product(EV_ALPHA, repeat=n):
+            L.append(jn("evpath", C.hx(b"".join(t)), C.hx(rng.choice([b"a.b.c", b"x.y:1", b"abc"]))))
+    for _ in range(10000 if q else 100000):
+        pat = b"/w/" + b"".join(rng.choice([b"%0", b"%1", b"%2", b"%3", b"%_", b"%%", b"%{1.1}", b"%{2.2}", b"%{0}", b"/", b"x", b".",
+                                            b"%{", b"%", b"%{1.}", b"%a"]) for _ in range(rng.randint(1, 5)))
+        L.append(jn("evpath", C.hx(pat), C.hx(mutate_host(rng, rng.choice(HOSTS)).replace(b"\x00", b""))))
+    S["vhost(simple/evhost)"] = L
+    # ---- X-Sendfile
+    L = []
+    for n in range(0, (4 if q else 5) + 1):
+        for t in itertools.product(PATH_ALPHA, repeat=n):
+            s = b"".join(t)
+            xd = rng.choice(XDOCS)
+            L.append(jn("xsf", str(rng.randint(0, 1)), C.hx(rng.choice([b"/x/", b"/x", b"", b"/X/", b"x/", b"a/../../x/"]) + s),
+                        *[C.hx(x) for x in xd]))
+    for _ in range(30000 if q else 300000):
+        r_ = rng.random()
+        if r_ < 0.5:
+            s = rng.choice([b"/x", b"/y/z", b"/X", b""]) + mutate(rng, rng.choice(TRAVERSAL))
+        elif r_ < 0.8:
+            s = b"/x/" + b"".join(rng.choice(UTF8_BYTES) for _ in range(rng.randint(1, 6)))
+            if rng.random() < 0.5:
+                s = b"/x/" + b"".join(b"%%%02x" % c if c >= 0x80 and rng.random() < 0.7 else bytes([c]) for c in s[3:])
+        else:
+            s = b"".join(rng.choice(PATH_ALPHA + [b"x", b"X"]) for _ in range(rng.randint(1, 10)))
+        s = s.replace(b"\x00", b"")
+        xd = rng.choice(XDOCS)
+        if rng.random() < 0.7:
+            L.append(jn("xsf", str(rng.randint(0, 1)), C.hx(s), *[C.hx(x) for x in xd]))
+        else:
+            v = rng.choice([b"", b" ", b"  "]) + s + rng.choice([b" 0-10", b" 0-", b"", b" ", b" 5-3,/x/b 0-1"])
+            L.append(jn("xsf2", str(rng.randint(0, 1)), C.hx(v), *[C.hx(x) for x in xd]))
+    S["x-sendfile"] = L
+    # ---- WebDAV Destination
+    L = []
+    def davline(lc, scheme, auth, docroot, src, dest):
+        rel, phys = src
+        if phys is None:
+            phys = pyjoin(docroot, rel)
+        if lc:
+            rel = rel.lower()
+        return jn("davdst", str(lc), C.hx(scheme), C.hx(auth), C.hx(docroot), C.hx(rel), C.hx(phys), C.hx(dest))
+    for src in DAV_SRC:
+        for d in DAV_DEST:
+            d = d.replace(b"%00", b"")
+            for dr in (b"/srv/www/", b"/srv/www"):
+                L.append(davline(0, b"http", b"h:1", dr, src, d))
+            L.append(davline(1, b"http", b"h:1", b"/srv/www/", src, d))
+            L.append(davline(0, b"https", b"h", b"/srv/www/", src, d.replace(b"http://h:1", b"https://h")))
+    for n in range(0, (4 if q else 5) + 1):
+        for t in itertools.product(PATH_ALPHA, repeat=n):
+            L.append(davline(0, b"http", b"h:1", b"/srv/www/", rng.choice(DAV_SRC[:4]), b"/dav/" + b"".join(t)))
+    for _ in range(20000 if q else 200000):
+        d = mutate(rng, rng.choice(DAV_DEST + TRAVERSAL)).replace(b"\r", b"").replace(b"\n", b"")
+        if rng.random() < 0.3:
+            d = rng.choice([b"http://h:1", b"http://h", b"https://h:1", b"http://x@h:1", b"http:/", b"http://"]) + d
+        if not d:
+            continue
+        L.append(davline(rng.randint(0, 1), b"http", rng.choice([b"h:1", b"h", b""]), rng.choice([b"/srv/www/", b"/srv/www", b"/"]),
+                         rng.choice(DAV_SRC), d))
+    for ln in (4090, 4095, 4096, 4100):
+        L.append(davline(0, b"http", b"h:1", b"/srv/www/", DAV_SRC[0], b"/dav/" + b"a" * (ln - 5)))
+        L.append(davline(0, b"http", b"h:1", b"/srv/www/", DAV_SRC[0], b"/dav/" + b"a/" * ((ln - 5) // 2)))
+        L.append(davline(0, b"http", b"h:1", b"/srv/www/", DAV_SRC[0], b"/dav/" + b"%61" * ((ln - 5) // 3)))
+    S["webdav-destination"] = L
+    ctx.notes.append("docroot streams: exhaustive hosts <= %d over %d symbols (strict) / <= 3 (lenient); alias over %d "
+                     "tables x 3 basedirs x all url-paths <= %d over %d symbols; simple-vhost authorities <= %d over 6 "
+                     "symbols; evhost patterns <= %d over %d symbols and authorities <= %d over %d symbols; X-Sendfile and "
+                     "Destination suffixes <= %d over the %d-symbol path alphabet; plus mutated corpora"
+                     % (4 if q else 5, len(HOST_ALPHA), len(ALIAS_TABLES), 5 if q else 6, len(URI_ALPHA), 4 if q else 5,
+                        4 if q else 5, len(EV_ALPHA), 5 if q else 6, len(EVH_ALPHA), 4 if q else 5, len(PATH_ALPHA)))
+    return S
+
+
+def lex_under(root, p):
+    """p is root (sans trailing '/') followed by '/'-separated segments none of which is '.' or '..'"""
+    r = root[:-1] if root.endswith(b"/") else root
+    if not p.startswith(r):
+        return "not under " + root.decode("latin-1")
+    rest = p[len(r):]
+    if rest and not rest.startswith(b"/"):
+        return "root is not a whole-segment prefix"
+    if has_dot_segment(rest):
+        return "dot segment below the root"
+    return None
+
+
+_STRICT_HOST = re.compile(rb"([A-Za-z0-9-]+(\.[A-Za-z0-9-]+)*|\[[0-9A-Fa-f:.]+\])(:[0-9]*)?")
+_EV_RE = re.compile(rb"%(%|_|\d|\{\d(\.\d)?\})")
+
+
+def oracle_docroot(line, out):
+    """independent statement of the containment claim on the implementation's output"""
+    t = line.split(" ")
+    o = out.split(" ")
+    op = t[0]
+    if op == "hostpol":
+        if t[1] == "1" and o[0] == "ok":
+            h = C.unhx(o[1])
+            if b"/" in h:
+                return "strict host policy accepted a host containing '/'"
+            if not h.startswith(b"["):
+                name = h.split(b":")[0]
+                if name in (b".", b"..") or b"" in name.split(b"."):
+                    return "strict host policy accepted an empty label / dot host"
+        elif o[0] == "ok" and any(c in C.unhx(o[1]) for c in b"\x00\r\n"):
+            return "host policy accepted NUL/CR/LF"
+    elif op == "phys":
+        d, u, p = C.unhx(t[2]), C.unhx(t[3]), C.unhx(out)
+        if canonical_abs(u) is None and d.startswith(b"/"):
+            return lex_under(d, p) and "physical path: " + lex_under(d, p)
+    elif op == "alias":
+        if o[0] == "go":
+            bd, src, p = C.unhx(t[2]), C.unhx(t[3]), C.unhx(o[1])
+            b0 = bd[:-1] if bd.endswith(b"/") else bd
+            if src.startswith(b0) and canonical_abs(src[len(b0):]) is None and p != src:
+                if has_dot_segment(p):
+                    return "mod_alias: remapped path has a dot segment"
+                if not p.startswith(C.unhx(o[2])):
+                    return "mod_alias: remapped path not under the alias target"
+    elif op == "svhost":
+        # (strict mode relies on the host policy having run: only hosts it accepts are in scope)
+        if o[0] == "ok" and (t[1] == "0" or o[2] == "~" or o[2] == t[4] or _STRICT_HOST.fullmatch(C.unhx(t[6]))):
+            sr, d = C.unhx(t[3]), C.unhx(o[1])
+            if not d.startswith(sr):
+                return "simple-vhost doc root does not start with server-root"
+            seg = d[len(sr):].split(b"/")[0]
+            if seg in (b".", b".."):
+                return "simple-vhost doc root escapes server-root through the host name"
+            if o[2] != "~" and t[4] != o[2] and b"/" in C.unhx(o[2]).split(b":")[0]:
+                return "simple-vhost used a host containing '/'"
+    elif op in ("evhost", "evpath"):
+        if op == "evhost" and o[0] == "ok":
+            pat, a, d = C.unhx(t[3]), C.unhx(t[4]), C.unhx(o[1])
+            lit = _EV_RE.sub(b"", pat)
+            extra = 0 if (d[:-1].endswith(b"/") or not d) else 0
+            if b"/" not in a.split(b":")[0] and b"/" not in a:
+                if d.count(b"/") > lit.count(b"/") + 1:
+                    return "evhost: host name added a path separator"
+            if b"/" in a and t[1] == "0":
+                return "evhost: lenient mode used a host containing '/'"
+    elif op == "userdir":
+        if o[0] == "go":
+            bp, u, p = C.unhx(t[3]), C.unhx(t[5]), C.unhx(o[1])
+            if canonical_abs(u) is None:
+                v = lex_under(bp, p)
+                if v:
+                    return "mod_userdir: " + v
+    elif op in ("xsf", "xsf2"):
+        if o[0] == "send" and len(t) > 3:
+            p = C.unhx(o[1])
+            lc = t[1] == "1"
+            xs = [C.unhx(x) for x in t[3:]]
+            if not any((p.lower().startswith(x.lower()) if lc else p.startswith(x)) for x in xs):
+                return "X-Sendfile path not under x-sendfile-docroot"
+            v = canonical_abs(p)
+            if v:
+                return "X-Sendfile: " + v
+    elif op == "davdst":
+        if o[0] == "ok":
+            rel, p = C.unhx(o[1]), C.unhx(o[2])
+            v = canonical_abs(rel)
+            if v:
+                return "WebDAV Destination: " + v
+            dr, srel, sphys = C.unhx(t[4]), C.unhx(t[5]), C.unhx(t[6])
+            d0 = dr[:-1] if dr.endswith(b"/") else dr
+            if sphys == d0 + srel:
+                if p != d0 + rel:
+                    return "WebDAV Destination not mapped below the document root"
+            elif has_dot_segment(p):
+                return "WebDAV Destination physical path has a dot segment"
+    return None
+
+
+def classify_docroot(line, out):
+    t = line.split(" ")
+    o = out.split(" ")
+    op = t[0]
+    if op == "hostpol":
+        h = C.unhx(t[2])
+        return "hostpol:%s:%s:%s" % (t[1], o[0], "v6" if h.startswith(b"[") else ("port" if b":" in h else "name"))
+    if op == "phys":
+        return "phys:%s:%s" % (t[1], "slash" if C.unhx(t[2]).endswith(b"/") else "noslash")
+    if op == "alias":
+        same = o[0] == "go" and o[1] == t[3]
+        return "alias:%s:n%d:%s" % (t[1], (len(t) - 4) // 2, "403" if o[0] == "403" else ("nomatch" if same else "remap"))
+    if op == "svhost":
+        return "svhost:%s:%s:%s" % (t[1], t[2], "none" if o[0] == "none" else ("default" if o[-1] != t[6] else "host"))
+    if op in ("evhost", "evpath"):
+        return "%s:%s:%s" % (op, t[1] if op == "evhost" else "-", o[0] if o[0] in ("none", "badpat", "ok") else "path")
+    if op == "userdir":
+        return "userdir:%s:%s:%s" % (t[1], t[2], o[0])
+    if op in ("xsf", "xsf2"):
+        return "%s:%s:x%d:%s" % (op, t[1], len(t) - 3, " ".join(o[:2]) if o[0] == "st" else "send")
+    if op == "davdst":
+        return "davdst:%s:%s" % (t[1], " ".join(o[:2]) if o[0] == "st" else "ok")
+    return op
+
+
+# ---------------------------------------------------------------------- symlink walk (real filesystem)
+def build_symtree(base, rootname="root", marker=False):
+    """base/<rootname> is the served tree, base/outside is not; returns the root"""
+    root = os.path.join(base, rootname)
+    os.makedirs(os.path.join(root, "d1", "d2"))
+    os.makedirs(os.path.join(base, "outside"))
+    for p in ("f0", "d1/f", "d1/d2/f"):
+        fp = os.path.join(root, p)
+        open(fp, "w").write(("FILE:" + fp + "\n") if marker else ("in:" + p))
+    open(os.path.join(base, "outside", "canary"), "w").write("CANARY")
+    os.symlink("d1", os.path.join(root, "l_d"))
+    os.symlink("d1/f", os.path.join(root, "l_f"))
+    os.symlink("../outside", os.path.join(root, "l_out"))
+    os.symlink("nonexistent", os.path.join(root, "l_broken"))
+    os.symlink("..", os.path.join(root, "d1", "l_up"))
+    os.symlink("/", os.path.join(root, "d1", "d2", "l_abs"))
+    return root
+
+
+def kind_of(p):
+    try:
+        st = os.lstat(p)
+    except OSError:
+        return "x"
+    import stat as S_
+    return "l" if S_.S_ISLNK(st.st_mode) else ("d" if S_.S_ISDIR(st.st_mode) else "f")
+
+
+def sym_probes(name):
+    """every string the walk may hand to lstat(): the name and its truncations at each '/' but the first"""
+    out = [name]
+    for i in range(len(name) - 1, 0, -1):
+        if name[i:i + 1] == b"/":
+            out.append(name[:i])
+    return out
+
+
+def gen_symwalk(ctx, root):
+    rng = ctx.rng
+    comps = [b"d1", b"d2", b"f", b"f0", b"l_d", b"l_f", b"l_out", b"l_broken", b"l_up", b"l_abs", b"nx", b"canary", b".", b"..", b""]
+    rootb = root.encode()
+    names = set()
+    depth = 4 if ctx.quick else 5
+    for n in range(0, depth + 1):
+        for t in itertools.product(comps, repeat=n):
+            if n >= 4 and rng.random() > (0.12 if ctx.quick else 0.3):
+                continue
+            names.add(rootb + b"".join(b"/" + c for c in t))
+    names |= {b"/", b"", b"relative/path", rootb + b"/" + b"a" * 5000, b"/" + b"a/" * 2047, b"/" + b"a/" * 2048, rootb + b"/d1/" + b"x" * 300}
+    lines = []
+    for nm in sorted(names):
+        toks = ["symwalk", C.hx(nm)]
+        if len(nm) < 4096:
+            for p in sym_probes(nm):
+                toks.append("%s:%s" % (C.hx(p), kind_of(p)))
+        lines.append(" ".join(toks))
+    return lines
+
+
+def oracle_symwalk(line, out):
+    t = line.split(" ")
+    nm = C.unhx(t[1])
+    if out not in ("0", "1", "-1"):
+        return "unexpected symlink-walk result"
+    if out != "0" or len(nm) <= 1:
+        return None
+    # independent: walk the components; none below "/" may be a symbolic link
+    cur = b""
+    for comp in nm.split(b"/")[1:]:
+        cur += b"/" + comp
+        if comp == b"":
+            continue
+        if os.path.islink(cur):
+            return "symlink walk passed a path with a symbolic link component"
+    return None
+
+
+def classify_symwalk(line, out):
+    t = line.split(" ")
+    kinds = "".join(sorted(set(x.split(":")[1] for x in t[2:])))
+    return "symwalk:%s:%s" % (out, kinds)
+
+
+# ====================================================================== end-to-end stream (real server)
+# Every file of the generated trees contains "FILE:<its absolute path>"; files outside every configured
+# root contain "CANARY:...".  Oracle: no response ever carries a canary, a served file lies under a root
+# the configuration designates, nothing outside the roots changes.  Correspondence: the file served is the
+# one the Lean model's composed path (`serve` / `xsf` / `davdst` / `symwalk` ops) names.
+P_DEFAULT = (9567, "")
+P_OFF = (1, 'server.http-parseopts = ("url-normalize" => "disable", "host-strict" => "disable", "host-normalize" => "disable")\n')
+P_REQ = (8303, 'server.http-parseopts = ("url-normalize-required" => "enable", "url-normalize-unreserved" => "disable", '
+               '"url-path-2f-decode" => "disable", "url-path-dotseg-remove" => "disable")\n')
+P_REJ = (10847, 'server.http-parseopts = ("url-path-2f-decode" => "disable", "url-path-2f-reject" => "enable", '
+                '"url-path-dotseg-remove" => "disable", "url-path-dotseg-reject" => "enable")\n')
+P_LENHOST = (9561, 'server.http-parseopts = ("host-strict" => "disable", "host-normalize" => "disable")\n')
+E2E_COMMON = '''
+server.stat-cache-engine = "disable"
+server.feature-flags = ("server.h2proto" => "enable", "server.h2c" => "enable")
+server.max-keep-alive-idle = 30
+server.max-read-idle = 30
+server.max-write-idle = 30
+index-file.names = ()
+dir-listing.activate = "disable"
+'''
+DOTDOT = [b"/..", b"/%2e%2e", b"/.%2e", b"/%2E.", b"/..%2f", b"%2f..", b"/..%5c", b"/..\\", b"/%252e%252e", b"/..;",
+          b"/%c0%ae%c0%ae", b"/..%01", b"/...", b"/./..", b"//..", b"/..%2F..", b"/%2e%2e%2f%2e%2e"]
+CANARY_TAILS = [b"/canary.txt", b"/outside/canary.txt", b"/docroot-x/canary.txt", b"/al1-secret/canary.txt", b"/htdocs/canary.txt",
+                b"/vh/canary.txt", b"/xs-secret/canary.txt", b"/etc/passwd", b"/al/canary.txt"]
+
+
+def _w(path, content):
+    os.makedirs(os.path.dirname(path), exist_ok=True)
+    with open(path, "wb") as f:
+        f.write(content)
+
+
+def plant(root, rels, canaries):
+    for r_ in rels:
+        p = os.path.join(root, r_)
+        _w(p, b"FILE:" + p.encode() + b"\n")
+    for r_ in canaries:
+        p = os.path.join(root, r_)
+        _w(p, b"CANARY:" + p.encode() + b"\n")
+
+
+BASE_FILES = ["docroot/f.txt", "docroot/sub/g.txt", "docroot/sub/deep/h.txt", "docroot/x.y/z.txt", "docroot/al1x/n.txt",
+              "al1/a.txt", "al1/s/b.txt", "al2/c.txt", "al3/lower.txt",
+              "vh/a.example/htdocs/v.txt", "vh/b.example/htdocs/v.txt", "vh/default/htdocs/v.txt", "vh/a.example/w.txt",
+              "vh/default/w.txt", "vh/example/htdocs/v.txt", "xs/s.txt", "xs/d/t.txt",
+              "vh/htdocs/v.txt", "vh/w.txt", "vh/v.txt"]
+BASE_CANARIES = ["canary.txt", "outside/canary.txt", "docroot-x/canary.txt", "al1-secret/canary.txt", "al/canary.txt",
+                 "htdocs/canary.txt", "htdocs/v.txt",
+                 "xs-secret/canary.txt", "xsx/canary.txt", "v.txt", "w.txt", "vh-secret/htdocs/v.txt"]
+
+
+def static_configs():
+    """name -> dict(conf, modules, flags, lc, vh(tokens as bytes), aliases, roots (relative to the server root), urls, hosts)"""
+    al = [(b"/al1", "al1/"), (b"/al2/", "al2/")]
+    alconf = 'alias.url = ("/al1" => "@ROOT@/al1/", "/al2/" => "@ROOT@/al2/")\n'
+    good_al = [b"/f.txt", b"/sub/g.txt", b"/sub/deep/h.txt", b"/x.y/z.txt", b"/al1/a.txt", b"/al1/s/b.txt", b"/al2/c.txt", b"/al1x/n.txt"]
+    hosts_plain = [b"localhost", b"a.example"]
+    cfgs = {}
+    for nm, (fl, pc) in (("alias-default", P_DEFAULT), ("alias-nonorm", P_OFF), ("alias-required", P_REQ), ("alias-reject", P_REJ)):
+        cfgs[nm] = dict(conf=pc + alconf, modules=("mod_alias",), flags=fl, lc=0, vh=("none",), aliases=al,
+                        roots=["docroot", "al1", "al2"], urls=good_al, hosts=hosts_plain,
+                        prefixes=[b"", b"/sub", b"/al1", b"/al1/", b"/al1/s", b"/al2", b"/al2/", b"/al1x"])
+    cfgs["alias-lowercase"] = dict(conf='server.force-lowercase-filenames = "enable"\n' + alconf + 'alias.url += ("/AL3/" => "@ROOT@/al3/")\n',
+                                   modules=("mod_alias",), flags=P_DEFAULT[0], lc=1, vh=("none",), aliases=al + [(b"/AL3/", "al3/")],
+                                   roots=["docroot", "al1", "al2", "al3"], urls=good_al + [b"/AL1/A.TXT", b"/al3/lower.txt", b"/Al3/LOWER.txt", b"/SUB/G.TXT"],
+                                   hosts=hosts_plain, prefixes=[b"", b"/SUB", b"/AL1", b"/al3/", b"/AL3/"])
+    vhosts = [b"a.example", b"b.example", b"A.Example", b"a.example:80", b"a.example:8080", b"a.example.", b"unknown.example",
+              b"www.a.example", b"example", b"..", b".", b"../outside", b"a.example/../../outside", b"..:80", b"a..example",
+              b"%2e%2e", b".a.example", b"vh-secret", b":80", b"a.example:80:90", b"/", b"a.example/", b"..%2f", b"a.example/htdocs",
+              b"a.example:", b"-a.example", b"a.example..", b"default", b"htdocs", b"....", b"a.example/..", b"..\\..", b"..a"]
+    good_vh = [b"/v.txt", b"/w.txt", b"/htdocs/v.txt"]
+    sv1 = 'simple-vhost.server-root = "@ROOT@/vh/"\nsimple-vhost.default-host = "default"\nsimple-vhost.document-root = "/htdocs/"\n'
+    sv2 = 'simple-vhost.server-root = "@ROOT@/vh"\nsimple-vhost.default-host = "default"\n'
+    ev1 = 'evhost.path-pattern = "@ROOT@/vh/%0/htdocs/"\n'
+    ev2 = 'evhost.path-pattern = "@ROOT@/vh/%_/"\n'
+    ev3 = 'evhost.path-pattern = "@ROOT@/vh/%2.%1/htdocs/"\n'
+    for nm, (fl, pc), conf, vh in (
+            ("svhost-strict", P_DEFAULT, sv1, ("sv", "vh/", b"default", b"/htdocs/")),
+            ("svhost-lenient", P_LENHOST, sv1, ("sv", "vh/", b"default", b"/htdocs/")),
+            ("svhost-nodroot-lenient", P_LENHOST, sv2, ("sv", "vh/", b"default", None)),
+            ("evhost-strict", P_DEFAULT, ev1, ("ev", "vh/%0/htdocs/")),
+            ("evhost-lenient", P_LENHOST, ev1, ("ev", "vh/%0/htdocs/")),
+            ("evhost-fqdn-lenient", P_LENHOST, ev2, ("ev", "vh/%_/")),
+            ("evhost-labels-off", P_OFF, ev3, ("ev", "vh/%2.%1/htdocs/"))):
+        cfgs[nm] = dict(conf=pc + conf, modules=("mod_simple_vhost",) if vh[0] == "sv" else ("mod_evhost",), flags=fl, lc=0, vh=vh,
+                        aliases=[], roots=["docroot", "vh"], urls=good_vh + [b"/f.txt"],
+                        hosts=vhosts, prefixes=[b"", b"/htdocs"])
+    return cfgs
+
+
+def respell(rng, u):
+    u = bytearray(u)
+    for _ in range(rng.randint(0, 3)):
+        k = rng.randint(0, 5)
+        slashes = [i for i, c in enumerate(u) if c == 0x2f]
+        if k == 0 and slashes:
+            i = rng.choice(slashes); u[i:i + 1] = rng.choice([b"/./", b"//", b"/zz/../", b"/%2e/", b"/zz/%2e%2e/", b"/./zz/.././"])
+        elif k == 1:
+            i = rng.randrange(len(u)); u[i:i + 1] = (b"%%%02x" if rng.random() < 0.5 else b"%%%02X") % u[i]
+        elif k == 2:
+            u += rng.choice([b"?q=/../..", b"?", b"#/../x", b"?a#b"])
+        elif k == 3 and slashes:
+            i = rng.choice(slashes); u[i:i + 1] = rng.choice([b"%2f", b"%2F", b"\\", b"%5c"])
+        elif k == 4:
+            i = rng.randrange(len(u)); u[i:i + 1] = bytes([u[i]]).swapcase()
+        else:
+            u += rng.choice([b"/", b"/.", b"/..", b"/x", b"%00", b"."])
+    return bytes(u)
+
+
+def gen_targets(rng, cfg, n):
+    out = list(cfg["urls"])
+    for _ in range(n):
+        r_ = rng.random()
+        if r_ < 0.35:
+            t = respell(rng, rng.choice(cfg["urls"]))
+        elif r_ < 0.8:
+            t = rng.choice(cfg["prefixes"]) + b"".join(rng.choice(DOTDOT) for _ in range(rng.randint(1, 5))) + rng.choice(CANARY_TAILS)
+            if rng.random() < 0.3:
+                t = respell(rng, t)
+        elif r_ < 0.9:
+            t = rng.choice([b"/al1", b"/AL1", b"/al2", b"/al1x", b"/sub", b"/htdocs", b""]) + \
+                rng.choice([b"..", b".", b"../canary.txt", b"%2e%2e/canary.txt", b"./a.txt", b"-secret/canary.txt", b"../al1-secret/canary.txt",
+                            b"..%2fcanary.txt", b".%2e/canary.txt", b"/.", b"/..", b"../", b"x/../../canary.txt"])
+        else:
+            t = mutate(rng, rng.choice(TRAVERSAL + cfg["urls"]))
+        t = bytes(c for c in t if c not in (0, 10, 13, 32))
+        if t:
+            out.append(t)
+    return out
+
+
+def _safe_ascii(b):
+    return all(0x21 <= c <= 0x7e for c in b)
+
+
+class _H2Client:
+    def __init__(self, port):
+        self.port = port
+        self.c = None
+        self.sid = 1
+
+    def get(self, authority, path):
+        for attempt in (0, 1):
+            if self.c is None or self.c.closed or self.sid > 2000:
+                if self.c:
+                    self.c.close()
+                self.c = e2e.H2Conn(self.port)
+                self.sid = 1
+                self.c.pump(3.0, until=lambda f: any(x[0] == 4 and not (x[1] & 1) for x in f))
+                self.c.frames.clear()
+            c, sid = self.c, self.sid
+            self.sid += 2
+            ok = c.request(sid, "GET", path, authority=authority)
+
+            def done(fr, sid=sid):
+                return any((f[2] == sid and ((f[0] in (0, 1) and f[1] & 1) or f[0] == 3)) or f[0] == 7 for f in fr)
+            c.pump(5.0, until=done)
+            try:
+                st = e2e.h2_collect(c.frames, c.hp)
+            except Exception:
+                st = {}
+            goaway = any(f[0] == 7 for f in c.frames)
+            c.frames.clear()
+            d = st.get(sid)
+            if goaway or c.closed:
+                c.close(); self.c = None
+            if d and d["headers"]:
+                hs = dict((k, v) for k, v in d["headers"])
+                try:
+                    return int(hs.get(b":status", b"0")), d["body"], d["headers"]
+                except ValueError:
+                    return 0, d["body"], d["headers"]
+            if d and d["rst"] is not None:
+                return -d["rst"] - 1000, b"", []
+            if not ok or attempt == 0:
+                continue
+        return None, b"", []
+
+    def close(self):
+        if self.c:
+            self.c.close()
+
+
+def _h1_get(port, host, target, absolute=False, method=b"GET", extra=b""):
+    t = (b"http://" + host + target) if absolute else target
+    req = method + b" " + t + b" HTTP/1.1\r\nHost: " + host + b"\r\n" + extra + b"Connection: close\r\n\r\n"
+    data, closed = e2e.h1_exchange(port, [req], read_timeout=5.0)
+    try:
+        rs = e2e.parse_responses(data, head_for=[method == b"HEAD"], closed=closed)
+    except e2e.RespParseError:
+        return None, data, []
+    if not rs:
+        return None, data, []
+    return rs[-1]["status"], rs[-1]["body"], rs[-1]["headers"]
+
+
+def _norm(p):
+    """drop empty and "." segments (never ".."): the kernel resolves these in place"""
+    return b"/" + b"/".join(x for x in p.split(b"/") if x not in (b"", b"."))
+
+
+def _under(path, roots):
+    rp = os.path.realpath(path)
+    return any(rp == r_ or rp.startswith(r_ + os.sep.encode()) for r_ in roots)
+
+
+def _vh_tokens(cfg, rootb):
+    vh = cfg["vh"]
+    if vh[0] == "none":
+        return ["none"]
+    if vh[0] == "sv":
+        sroot = rootb + b"/" + vh[1].encode()   # (config-time buffer_append_slash: always a trailing '/')
+        return ["sv", C.hx(sroot), O(vh[2]), O(vh[3])]
+    return ["ev", C.hx(rootb + b"/" + vh[1].encode())]
+
+
+def e2e_static_cases(ctx, name, cfg, n):
+    rng = ctx.rng
+    cases = []
+    for t in gen_targets(rng, cfg, n):
+        h = rng.choice(cfg["hosts"][:2]) if (cfg["vh"][0] == "none" or rng.random() < 0.15) else rng.choice(cfg["hosts"])
+        if rng.random() < 0.1 and cfg["vh"][0] != "none":
+            h = mutate_host(rng, h)
+        h = bytes(c for c in h if c not in (0, 10, 13)) or b"x"
+        r_ = rng.random()
+        tr = "h2" if r_ < 0.25 else ("abs" if r_ < 0.4 and b"/" not in h and t.startswith(b"/") else "h1")
+        if tr != "h2" and (h != h.strip(b" \t") or not h):
+            h = b"a.example"
+        cases.append({"cfg": name, "host": h, "target": t, "tr": tr})
+    return cases
+
+
+def e2e_model_static(cfg, rootb, cases):
+    """two model passes: candidate vhost directories (stat'ed here on the real tree), then the composed path"""
+    vt = _vh_tokens(cfg, rootb)
+    fl = str(cfg["flags"])
+    dirs = [[] for _ in cases]
+    if cfg["vh"][0] != "none":
+        lines = [jn("cand", *vt, fl, C.hx(c["host"])) for c in cases]
+        out, rc, err = C.run_model("url", lines)
+        if rc != 0 or len(out) != len(lines):
+            return None, err
+        for i, o in enumerate(out):
+            for tok in o.split(" "):
+                if tok not in ("~", "-", "skip", "rej", "badpat"):
+                    p = C.unhx(tok)
+                    if os.path.isdir(p):
+                        dirs[i].append(tok)
+    al = []
+    for k, v in cfg["aliases"]:
+        al += [C.hx(k), C.hx(rootb + b"/" + v.encode())]
+    lines = [jn("serve", fl, str(cfg["lc"]), C.hx(rootb + b"/docroot"), *vt, str(len(dirs[i])), *dirs[i], str(len(al)), *al,
+                C.hx(c["host"]), C.hx(c["target"])) for i, c in enumerate(cases)]
+    out, rc, err = C.run_model("url", lines)
+    if rc != 0 or len(out) != len(lines):
+        return None, err
+    return list(zip(lines, out)), None
+
+
+def e2e_run_static(port, cases, nthreads=8):
+    def worker(chunk):
+        h2 = _H2Client(port)
+        res = []
+        for c in chunk:
+            try:
+                if c["tr"] == "h2":
+                    res.append(h2.get(c["host"], c["target"]))
+                else:
+                    res.append(_h1_get(port, c["host"], c["target"], absolute=(c["tr"] == "abs")))
+            except OSError as ex:
+                res.append((None, str(ex).encode(), []))
+        h2.close()
+        return res
+    sz = (len(cases) + nthreads - 1) // nthreads
+    chunks = [cases[i:i + sz] for i in range(0, len(cases), sz)] if cases else []
+    with ThreadPoolExecutor(nthreads) as ex:
+        parts = list(ex.map(worker, chunks))
+    return [x for p in parts for x in p]
+
+
+def served_file(status, body):
+    if status == 200 and body.startswith(b"FILE:"):
+        return body[5:].rstrip(b"\n")
+    return None
+
+
+def e2e_eval_static(ctx, name, cfg, rootb, case, model_line, pred, obs):
+    """returns (oracle verdict, correspondence verdict)"""
+    status, body, headers = obs
+    blob = body + b"".join(k + v for k, v in headers)
+    if b"CANARY" in blob:
+        return "canary content served (outside every configured root)", None
+    roots = [os.path.realpath(rootb + b"/" + r_.encode()) for r_ in cfg["roots"]]
+    f = served_file(status, body)
+    if f is not None and not _under(f, roots):
+        return "file outside the configured roots served: " + f.decode("latin-1"), None
+    p = pred.split(" ")
+    if p[0] == "skip" or status is None:
+        return None, None
+    if f is not None:
+        if p[0] != "path":
+            return None, "served a file where the model rejects (%s)" % pred
+        mp = C.unhx(p[1])
+        if not (os.path.exists(mp) and os.path.samefile(mp, f)) and _norm(mp) != _norm(f) \
+                and not _norm(mp).startswith(_norm(f) + b"/"):
+            return None, "served %s, model path %s" % (f.decode("latin-1"), mp.decode("latin-1"))
+    # completeness on plainly spelled requests (the request parser itself is C01's business)
+    if _safe_ascii(case["target"]) and _safe_ascii(case["host"]) and b"#" not in case["target"] and case["target"].startswith(b"/"):
+        if p[0] == "rej" and status != int(p[1]) and not (case["tr"] == "h2" and status in (400, -1001, -1002)):
+            return None, "model rejects with %s, server answered %s" % (p[1], status)
+        if p[0] == "path":
+            mp = C.unhx(p[1])
+            if os.path.isfile(mp) and not mp.endswith(b"/") and f is None:
+                return None, "model path %s is a regular file, server answered %s" % (mp.decode("latin-1"), status)
+    return None, None
+
+
+def snapshot(root, skip=("error.log", "stderr.log", "lighttpd.pid", "lighttpd.conf", "tmp")):
+    snap = {}
+    for dp, dns, fns in os.walk(root):
+        if dp == root:
+            dns[:] = [d for d in dns if d not in skip]
+            fns = [f for f in fns if f not in skip]
+        for d in dns:
+            p = os.path.join(dp, d)
+            snap[p] = ("l", os.readlink(p)) if os.path.islink(p) else ("d",)
+        for f in fns:
+            p = os.path.join(dp, f)
+            if os.path.islink(p):
+                snap[p] = ("l", os.readlink(p))
+            else:
+                try:
+                    snap[p] = ("f", open(p, "rb").read())
+                except OSError:
+                    snap[p] = ("f", None)
+    return snap
+
+
+def snap_diff(a, b):
+    return sorted(k for k in set(a) | set(b) if a.get(k) != b.get(k))
+
+
+def e2e_report(ctx, stream, case, model_line, pred, obs, ov, cv):
+    rep = {"property": ctx.pid, "correspondence": stream, "input": model_line, "case": {k: (v.decode("latin-1") if isinstance(v, bytes) else v)
+                                                                                       for k, v in case.items()},
+           "model_obs": pred, "impl_obs": "%s %r" % (obs[0], obs[1][:200])}
+    if ov:
+        rep.update(kind="property-oracle", oracle_verdict=ov)
+        ctx.violation("oracle:%s:%s" % (stream, ov[:50]), ov, rep, found=True)
+    else:
+        rep.update(kind="correspondence", oracle_verdict="no canary / out-of-root access observed", detail=cv)
+        ctx.violation("corr:%s:%s" % (stream, case.get("cfg", "")), "model/implementation correspondence %s broken: %s" % (stream, cv),
+                      rep, found=False)
+
+
+def e2e_static(ctx, bd, name, cfg, n):
+    t0 = time.time()
+    srv = e2e.Server(bd, E2E_COMMON + cfg["conf"], modules=cfg["modules"])
+    plant(srv.root, BASE_FILES, BASE_CANARIES)
+    rootb = srv.root.encode()
+    cases = e2e_static_cases(ctx, name, cfg, n)
+    ml, err = e2e_model_static(cfg, rootb, cases)
+    if ml is None:
+        ctx.broken.append({"kind": "model-run", "names": ["url"], "log": (err or "")[-2000:]})
+        return
+    before = snapshot(srv.root)
+    with srv:
+        obs = e2e_run_static(srv.port, cases)
+        alive = srv.alive()
+    rep = srv.sanitizer_report()
+    if rep or not alive:
+        ctx.violation("crash:e2e:" + name, "server crashed / sanitizer report in e2e config " + name,
+                      {"property": ctx.pid, "kind": "sanitizer-or-crash", "correspondence": "e2e-" + name, "input": name,
+                       "stderr": (rep or srv.logs())[-4000:]}, found=True)
+        return
+    changed = snap_diff(before, snapshot(srv.root))
+    if changed:
+        ctx.violation("oracle:e2e:fs-changed:" + name, "filesystem changed by GET requests: %s" % changed[:5],
+                      {"property": ctx.pid, "kind": "property-oracle", "correspondence": "e2e-" + name, "input": name,
+                       "oracle_verdict": "files changed: %s" % changed[:20]}, found=True)
+    ndis = nor = 0
+    for case, (mline, pred), ob in zip(cases, ml, obs):
+        ctx.evaluations += 1
+        ctx.keys["e2e:%s:%s:%s:%s" % (name, case["tr"], pred.split(" ")[0] + (pred.split(" ")[1] if pred.startswith("rej") else ""),
+                                       "file" if served_file(ob[0], ob[1]) else ob[0])] += 1
+        ov, cv = e2e_eval_static(ctx, name, cfg, rootb, case, mline, pred, ob)
+        if ov or cv:
+            nor += 1 if ov else 0
+            ndis += 1 if cv else 0
+            e2e_report(ctx, "e2e-" + name, case, mline, pred, ob, ov, cv)
+    ctx.sample({"stream": "e2e-" + name, "input": "%s %r %r" % (cases[0]["tr"], cases[0]["host"], cases[0]["target"]),
+                "impl": str(obs[0][0])})
+    ctx.streams.append({"name": "e2e-" + name, "cases": len(cases), "disagreements": ndis, "oracle_hits": nor,
+                        "wall_s": round(time.time() - t0, 2)})
+
+
+# ---- X-Sendfile through a CGI
+XS_PL = b'''#!/usr/bin/perl
+my $v = $ENV{QUERY_STRING};
+$v =~ s/([0-9a-f]{2})/chr(hex($1))/ge;
+print "Status: 200\\r\\nContent-Type: text/plain\\r\\nX-Sendfile: $v\\r\\n\\r\\nnot-sent";
+'''
+
+
+def e2e_xsendfile(ctx, bd, n):
+    t0 = time.time()
+    rng = ctx.rng
+    conf = ('cgi.assign = (".pl" => "/usr/bin/perl")\ncgi.x-sendfile = "enable"\n'
+            'cgi.x-sendfile-docroot = ("@ROOT@/xs")\n')
+    srv = e2e.Server(bd, E2E_COMMON + conf, modules=("mod_cgi",))
+    plant(srv.root, BASE_FILES, BASE_CANARIES)
+    _w(os.path.join(srv.docroot, "xs.pl"), XS_PL)
+    R = srv.root.encode()
+    good = [R + b"/xs/s.txt", R + b"/xs/d/t.txt"]
+    vals = list(good) + [R + b"/xs/../canary.txt", R + b"/xs/..%2fcanary.txt", R + b"/xs-secret/canary.txt", R + b"/xsx/canary.txt",
+                         R + b"/xs", R + b"/xs/", R + b"/canary.txt", b"/etc/passwd", b"xs/s.txt", b"../canary.txt", R + b"/XS/s.txt",
+                         R + b"/xs/%2e%2e/canary.txt", R + b"/xs/d/../../canary.txt", R + b"/xs/./s.txt", R + b"//xs//s.txt",
+                         R + b"/xs/%c0%ae%c0%ae/canary.txt", R + b"/xs/s.txt/", R + b"/xs/d", R + b"/xs/nx.txt", R + b"/docroot/f.txt"]
+    for _ in range(n):
+        r_ = rng.random()
+        if r_ < 0.4:
+            v = R + respell(rng, rng.choice([b"/xs/s.txt", b"/xs/d/t.txt"]))
+        elif r_ < 0.85:
+            v = R + rng.choice([b"/xs", b"/xs/d", b"/xs/", b""]) + b"".join(rng.choice(DOTDOT) for _ in range(rng.randint(1, 4))) + \
+                rng.choice(CANARY_TAILS + [b"/xs/s.txt"])
+        else:
+            v = mutate(rng, rng.choice(vals))
+        v = bytes(c for c in v if c not in (0, 10, 13)).strip(b" \t")
+        if v:
+            vals.append(v)
+    xdoc = R + b"/xs/"
+    lines = [jn("xsf", "0", C.hx(v), C.hx(xdoc)) for v in vals]
+    out, rc, err = C.run_model("url", lines)
+    if rc != 0 or len(out) != len(lines):
+        ctx.broken.append({"kind": "model-run", "names": ["url"], "log": err[-2000:]})
+        return
+    with srv:
+        def one(v):
+            try:
+                return _h1_get(srv.port, b"localhost", b"/xs.pl?" + v.hex().encode())
+            except OSError as ex:
+                return (None, str(ex).encode(), [])
+        with ThreadPoolExecutor(8) as ex:
+            obs = list(ex.map(one, vals))
+        alive = srv.alive()
+    rep = srv.sanitizer_report()
+    if rep or not alive:
+        ctx.violation("crash:e2e:xsendfile", "server crashed / sanitizer report in e2e config xsendfile",
+                      {"property": ctx.pid, "kind": "sanitizer-or-crash", "correspondence": "e2e-xsendfile", "input": "xsendfile",
+                       "stderr": (rep or srv.logs())[-4000:]}, found=True)
+        return
+    ndis = nor = 0
+    xsroot = [os.path.realpath(R + b"/xs")]
+    for v, line, pred, ob in zip(vals, lines, out, obs):
+        status, body, headers = ob
+        ctx.evaluations += 1
+        ctx.keys["e2e:xsendfile:%s:%s" % (pred if pred.startswith("st") else "send", "file" if served_file(status, body) else status)] += 1
+        ov = cv = None
+        f = served_file(status, body)
+        if b"CANARY" in body + b"".join(k + x for k, x in headers):
+            ov = "canary content served through X-Sendfile"
+        elif f is not None and not _under(f, xsroot):
+            ov = "X-Sendfile served a file outside x-sendfile-docroot: " + f.decode("latin-1")
+        elif status is not None:
+            p = pred.split(" ")
+            ctl = any(c < 32 or c == 127 for c in v)
+            if p[0] == "st":
+                if f is not None:
+                    cv = "model refuses (%s), server sent %s" % (pred, f.decode("latin-1"))
+                elif not ctl and status != int(p[1]):
+                    cv = "model status %s, server %s" % (p[1], status)
+            else:
+                mp = C.unhx(p[1])
+                if f is not None and not (os.path.exists(mp) and os.path.samefile(mp, f)):
+                    cv = "served %s, model path %s" % (f.decode("latin-1"), mp.decode("latin-1"))
+                elif f is None and not ctl and os.path.isfile(mp):
+                    cv = "model path %s is a regular file, server answered %s" % (mp.decode("latin-1"), status)
+        if ov or cv:
+            nor += 1 if ov else 0
+            ndis += 1 if cv else 0
+            e2e_report(ctx, "e2e-xsendfile", {"cfg": "xsendfile", "value": v}, line, pred, ob, ov, cv)
+    ctx.streams.append({"name": "e2e-xsendfile", "cases": len(vals), "disagreements": ndis, "oracle_hits": nor,
+                        "wall_s": round(time.time() - t0, 2)})
+
+
+# ---- WebDAV COPY / MOVE Destination
+DAV_FILES = ["docroot/dav/a.txt", "docroot/dav/sub/b.txt", "docroot/dav/col/c.txt", "docroot/other/o.txt", "docroot/f.txt"]
+
+
+def dav_plant(srv):
+    import shutil
+    shutil.rmtree(srv.docroot, ignore_errors=True)
+    plant(srv.root, DAV_FILES, [])
+
+
+def e2e_webdav(ctx, bd, n):
+    t0 = time.time()
+    rng = ctx.rng
+    conf = 'webdav.activate = "enable"\nwebdav.is-readonly = "disable"\n'
+    srv = e2e.Server(bd, E2E_COMMON + conf, modules=("mod_webdav",))
+    plant(srv.root, [], BASE_CANARIES)
+    dav_plant(srv)
+    R = srv.root.encode()
+    D = R + b"/docroot"
+    with srv:
+        auth = b"127.0.0.1:%d" % srv.port
+        origin = b"http://" + auth
+        dests = []
+        base = [b"/dav/b.txt", b"/dav/sub/n.txt", b"/dav/new/", b"/other/n.txt", b"/n.txt", b"/dav/col2/", b"/dav/a.txt", b"/dav/col/c.txt",
+                b"/dav/../../canary.txt", b"/dav/%2e%2e/%2e%2e/canary.txt", b"/dav/..%2f..%2fcanary.txt", b"/../canary.txt",
+                b"/dav/../../outside/n.txt", b"/%2e%2e/outside/n.txt", b"/dav/../../docroot-x/n.txt", b"/..%2foutside%2fn.txt",
+                b"/dav/%c0%ae%c0%ae/%c0%ae%c0%ae/canary.txt", b"/dav/..\\..\\canary.txt", b"/dav/n.txt?x=/../../canary.txt", b"/dav/sub/../n.txt",
+                b"//dav//n.txt", b"/dav/./n.txt", b"/", b"/dav", b"/dav/", b"dav/n.txt", b"/dav/%ff.txt", b"/dav/n%00.txt"]
+        for b_ in base:
+            dests.append(b_)
+            dests.append(origin + b_ if b_.startswith(b"/") else b_)
+        dests += [b"http://evil.example/dav/n.txt", b"http://u:p@" + auth + b"/dav/n2.txt", b"https://" + auth + b"/dav/n.txt",
+                  b"http://" + auth, b"http://127.0.0.1/dav/n.txt", b"http://" + auth + b"@evil/dav/n.txt", b"http:/" + auth + b"/dav/n.txt"]
+        for _ in range(n):
+            r_ = rng.random()
+            if r_ < 0.3:
+                d = respell(rng, rng.choice(base[:8]))
+            elif r_ < 0.8:
+                d = rng.choice([b"/dav", b"/dav/sub", b"", b"/other"]) + b"".join(rng.choice(DOTDOT) for _ in range(rng.randint(1, 4))) + \
+                    rng.choice([b"/canary.txt", b"/outside/n.txt", b"/docroot-x/n.txt", b"/n.txt", b"/outside/"])
+            else:
+                d = mutate(rng, rng.choice(base))
+            if rng.random() < 0.3 and d.startswith(b"/"):
+                d = origin + d
+            d = bytes(c for c in d if c not in (0, 10, 13)).strip(b" \t")
+            if d:
+                dests.append(d)
+        srcs = [(b"/dav/a.txt", b"COPY"), (b"/dav/a.txt", b"MOVE"), (b"/dav/col/", b"COPY"), (b"/dav/sub/b.txt", b"COPY"), (b"/dav/col/", b"MOVE")]
+        cases = [(rng.choice(srcs), d) for d in dests]
+        lines = [jn("davdst", "0", C.hx(b"http"), C.hx(auth), C.hx(D), C.hx(s), C.hx(D + s), C.hx(d)) for (s, m), d in cases]
+        out, rc, err = C.run_model("url", lines)
+        if rc != 0 or len(out) != len(lines):
+            ctx.broken.append({"kind": "model-run", "names": ["url"], "log": err[-2000:]})
+            return
+        ndis = nor = 0
+        clean = snapshot(srv.root)
+        droot = os.path.realpath(D)
+        for ((s, m), d), line, pred in zip(cases, lines, out):
+            ob = _h1_get(srv.port, auth, s, method=m, extra=b"Destination: " + d + b"\r\n")
+            status = ob[0]
+            after = snapshot(srv.root)
+            changed = [c.encode() for c in snap_diff(clean, after)]
+            ctx.evaluations += 1
+            ctx.keys["e2e:webdav:%s:%s:%s:%s" % (m.decode(), pred if pred.startswith("st") else "ok", status, "chg" if changed else "same")] += 1
+            ov = cv = None
+            outside = [c for c in changed if not (os.path.realpath(os.path.dirname(c)) + b"/").startswith(droot + b"/")]
+            if outside:
+                ov = "WebDAV %s changed a path outside the document root: %s" % (m.decode(), outside[0].decode("latin-1"))
+            elif b"CANARY" in ob[1]:
+                ov = "canary content in WebDAV response"
+            elif status is not None:
+                p = pred.split(" ")
+                ctl = any(c < 32 or c >= 127 for c in d)
+                if p[0] == "st":
+                    if changed:
+                        cv = "model refuses (%s) but the tree changed: %s" % (pred, changed[0].decode("latin-1"))
+                    elif not ctl and status != int(p[1]):
+                        cv = "model status %s, server %s" % (p[1], status)
+                else:
+                    mp = C.unhx(p[2]).rstrip(b"/")
+                    srcp = (D + s).rstrip(b"/")
+                    bad = [c for c in changed if not (c == mp or c.startswith(mp + b"/")
+                                                      or (m == b"MOVE" and (c == srcp or c.startswith(srcp + b"/"))))]
+                    if bad:
+                        cv = "changed %s, model destination %s" % (bad[0].decode("latin-1"), mp.decode("latin-1"))
+            if ov or cv:
+                nor += 1 if ov else 0
+                ndis += 1 if cv else 0
+                e2e_report(ctx, "e2e-webdav", {"cfg": "webdav", "method": m, "src": s, "dest": d}, line, pred, ob, ov, cv)
+            if changed:
+                dav_plant(srv)
+                # anything created outside the document root is removed as well
+                for c in outside:
+                    try:
+                        os.remove(c)
+                    except OSError:
+                        pass
+                clean = snapshot(srv.root)
+        alive = srv.alive()
+    rep = srv.sanitizer_report()
+    if rep or not alive:
+        ctx.violation("crash:e2e:webdav", "server crashed / sanitizer report in e2e config webdav",
+                      {"property": ctx.pid, "kind": "sanitizer-or-crash", "correspondence": "e2e-webdav", "input": "webdav",
+                       "stderr": (rep or srv.logs())[-4000:]}, found=True)
+    ctx.streams.append({"name": "e2e-webdav", "cases": len(cases), "disagreements": ndis, "oracle_hits": nor,
+                        "wall_s": round(time.time() - t0, 2)})
+
+
+# ---- follow-symlink disabled
+def e2e_symlink(ctx, bd, n):
+    t0 = time.time()
+    rng = ctx.rng
+    srv = e2e.Server(bd, E2E_COMMON + 'server.follow-symlink = "disable"\n', modules=())
+    os.rmdir(srv.docroot)
+    build_symtree(srv.root, rootname="docroot", marker=True)
+    plant(srv.root, [], ["canary.txt"])
+    comps = [b"d1", b"d2", b"f", b"f0", b"l_d", b"l_f", b"l_out", b"l_broken", b"l_up", b"l_abs", b"nx", b"canary", b"docroot", b"tmp"]
+    targets = set()
+    for k in range(1, 5):
+        for t in itertools.product(comps, repeat=k):
+            if k >= 3 and rng.random() > (n / float(len(comps) ** k)):
+                continue
+            u = b"".join(b"/" + c for c in t)
+            targets.add(u)
+            if rng.random() < 0.2:
+                targets.add(u + b"/")
+    targets = sorted(targets)
+    D = srv.docroot.encode()
+    lines = []
+    eff = {}
+    for u in targets:
+        nm = D + u
+        if not os.path.exists(nm):
+            # PATH_INFO: the server cuts the path back to the first regular file on the way
+            cur = D
+            for comp in u.split(b"/")[1:]:
+                cur += b"/" + comp
+                if os.path.isfile(cur):
+                    nm = cur
+                    break
+                if not os.path.isdir(cur):
+                    break
+        eff[u] = nm
+        lines.append(" ".join(["symwalk", C.hx(nm)] + ["%s:%s" % (C.hx(p), kind_of(p)) for p in sym_probes(nm)]))
+    out, rc, err = C.run_model("url", lines)
+    if rc != 0 or len(out) != len(lines):
+        ctx.broken.append({"kind": "model-run", "names": ["url"], "log": err[-2000:]})
+        return
+    with srv:
+        with ThreadPoolExecutor(8) as ex:
+            obs = list(ex.map(lambda u: _h1_get(srv.port, b"localhost", u), targets))
+        alive = srv.alive()
+    rep = srv.sanitizer_report()
+    if rep or not alive:
+        ctx.violation("crash:e2e:symlink", "server crashed / sanitizer report in e2e config symlink",
+                      {"property": ctx.pid, "kind": "sanitizer-or-crash", "correspondence": "e2e-symlink", "input": "symlink",
+                       "stderr": (rep or srv.logs())[-4000:]}, found=True)
+        return
+    ndis = nor = 0
+    for u, line, pred, ob in zip(targets, lines, out, obs):
+        status, body, headers = ob
+        nm = eff[u]
+        ctx.evaluations += 1
+        ctx.keys["e2e:symlink:%s:%s" % (pred, "file" if served_file(status, body) else status)] += 1
+        ov = cv = None
+        haslink = False
+        cur = b""
+        for comp in nm.split(b"/")[1:]:
+            cur += b"/" + comp
+            if comp and os.path.islink(cur):
+                haslink = True
+        if b"CANARY" in body:
+            ov = "canary content served with follow-symlink disabled"
+        elif status == 200 and haslink:
+            ov = "path through a symbolic link served with follow-symlink disabled: " + u.decode()
+        elif status is not None:
+            if status == 200 and pred != "0":
+                cv = "served although the model's walk returns " + pred
+            elif pred == "1" and os.path.exists(nm) and status != 403:
+                cv = "walk finds a symlink, server answered %s" % status
+            elif pred == "0" and os.path.isfile(nm) and status != 200:
+                cv = "clean regular file, server answered %s" % status
+        if ov or cv:
+            nor += 1 if ov else 0
+            ndis += 1 if cv else 0
+            e2e_report(ctx, "e2e-symlink", {"cfg": "symlink", "target": u}, line, pred, ob, ov, cv)
+    ctx.streams.append({"name": "e2e-symlink", "cases": len(targets), "disagreements": ndis, "oracle_hits": nor,
+                        "wall_s": round(time.time() - t0, 2)})
+
+
+def run_e2e(ctx, only=None):
+    bd, err = e2e.build_server()
+    if bd is None:
+        ctx.broken.append({"kind": "server-build", "names": ["lighttpd"], "log": err[-3000:]})
+        return
+    if not getattr(ctx, "model_ok", True):
+        return
+    n = 160 if ctx.quick else 1500
+    cfgs = static_configs()
+    jobs = []
+    for name, cfg in cfgs.items():
+        if only is None or only == name:
+            jobs.append(lambda name=name, cfg=cfg: e2e_static(ctx, bd, name, cfg, n))
+    if only in (None, "xsendfile"):
+        jobs.append(lambda: e2e_xsendfile(ctx, bd, n))
+    if only in (None, "webdav"):
+        jobs.append(lambda: e2e_webdav(ctx, bd, n))
+    if only in (None, "symlink"):
+        jobs.append(lambda: e2e_symlink(ctx, bd, 400 if ctx.quick else 3000))
+    # (generation draws from ctx.rng: keep the order deterministic by running jobs one after another;
+    #  each job is internally parallel)
+    for j in jobs:
+        j()
+    ctx.notes.append("e2e: %d server configurations (alias x 4 parseopts sets + force-lowercase, simple-vhost x 3, evhost x 4, "
+                     "CGI X-Sendfile, WebDAV COPY/MOVE, follow-symlink off); transports h1 origin-form, h1 absolute-form, h2 :path"
+                     % (len(cfgs) + 3))
+
+
+def replay_e2e(ctx, rep):
+    """re-run the recorded configuration (fresh server, same seed): the check's own verdict decides"""
+    cfg = rep.get("case", {}).get("cfg")
+    before = len(ctx.violations)
+    ctx.model_ok = True
+    run_e2e(ctx, only=cfg)
+    for v in ctx.violations[before:]:
+        print("  ", v[0], v[1])
+    if len(ctx.violations) > before:
+        print("VIOLATION property=%s replay=(replayed)" % ctx.pid)
+        return 1
+    return 0
+
+
 def run(ctx):
     exe, err = C.build_harness("h_url")
     if exe is None:
         ctx.broken.append({"kind": "harness-build", "names": ["h_url"], "log": err[-3000:]})
         return
+    exe2, err = C.build_harness("h_docroot")
+    if exe2 is None:
+        ctx.broken.append({"kind": "harness-build", "names": ["h_docroot"], "log": err[-3000:]})
+        return
     path_lines, url_lines = gen(ctx)
     ctx.differential("path(simplify/urldecode)", [exe], "url", path_lines, oracle, classify)
     ctx.differential("url(normalize/target)", [exe], "url", url_lines, oracle, classify)
-    ctx.rule = ("cases: every string up to a bounded length over the path metacharacter alphabet, "
-                "per parseopts set, plus random and mutated traversal strings; distinct = "
-                "(operation, parseopts, outcome class, changed/unchanged) tuples observed")
+    for name, lines in gen_docroot(ctx).items():
+        ctx.differential(name, [exe2], "url", lines, oracle_docroot, classify_docroot)
+    base = C.scratch_dir("sym")
+    root = build_symtree(base)
+    ctx.differential("symlink-walk(real fs)", [exe2], "url", gen_symwalk(ctx, root), oracle_symwalk, classify_symwalk)
+    run_e2e(ctx)
+    ctx.rule = ("cases: every string up to a bounded length over the path/host metacharacter alphabets, per "
+                "parseopts set / configuration, plus random and mutated traversal strings; e2e: requests against "
+                "the real server; distinct = (operation, options, outcome class) tuples observed")
     ctx.assumptions += ["inputs to the path functions are NUL-free (NUL is rejected by the request parser: C01)",
-                        "Windows/Cygwin backslash branches are compiled out on this platform"]
+                        "Windows/Cygwin backslash branches are compiled out on this platform",
+                        "configured roots, alias targets and x-sendfile-docroots are absolute canonical paths",
+                        "no concurrent modification of the served tree between check and open (TOCTOU outside the model)"]
 
 
 def replay_line(ctx, rep):
-    exe, err = C.build_harness("h_url")
-    o, rc, e = C.run_lines([exe], [rep["input"]])
-    m, _, _ = C.run_model("url", [rep["input"]])
-    print("input:", rep["input"])
+    if rep.get("correspondence", "").startswith("e2e"):
+        return replay_e2e(ctx, rep)
+    line = rep["input"]
+    op = line.split(" ")[0]
+    hn = "h_url" if op in ("dec", "simp", "decsimp", "norm", "target") else "h_docroot"
+    exe, err = C.build_harness(hn)
+    if op == "symwalk":
+        # the tree lived in a scratch directory: rebuild it at the recorded place
+        nm = C.unhx(line.split(" ")[1])
+        m = re.match(rb"(/.*?/ltverif\.sym\.[^/]+)/root", nm)
+        if m and not os.path.exists(m.group(1)):
+            os.makedirs(m.group(1))
+            build_symtree(m.group(1).decode())
+            C._scratch.append(m.group(1).decode())
+    o, rc, e = C.run_lines([exe], [line])
+    m, _, _ = C.run_model("url", [line])
+    print("input:", line)
     print("impl :", o, rc)
     print("model:", m)
-    v = oracle(rep["input"], o[0]) if o else "crash"
+    orc = oracle if hn == "h_url" else (oracle_symwalk if op == "symwalk" else oracle_docroot)
+    v = orc(line, o[0]) if o else "crash"
     print("oracle:", v)
     if v or (o != m):
         print("VIOLATION property=%s replay=%s" % (ctx.pid, "(replayed)"))
